@@ -16,6 +16,7 @@ type EngineGenOpts struct {
 	FixedIO  int  // -1: draw, else force this FileIOType
 	HostileCaller bool
 	MergeHeavy    bool // several merges per scenario, each followed by restarts (adoption, second restart), small files
+	BackupCycle   bool // some scenarios refresh one backup directory around an adopted merge of uniform-size records
 }
 
 type cfgGen struct {
@@ -271,6 +272,11 @@ func GenEngineScript(r *Rng, o EngineGenOpts, hist map[string]int) []string {
 			add("files")
 			add("stat")
 		case x < 93 && o.Backups:
+			if r.Chance(1, 3) {
+				// the last record of the active file ends with zero bytes
+				add("put %s %s", engKeys[r.Intn(len(engKeys))], r.PickS("00", "ab0000", "0000000000", "6100"))
+				hist["val_trailing_zeros"]++
+			}
 			backupN++
 			name := fmt.Sprintf("bk%d", backupN)
 			backups = append(backups, name)
@@ -325,6 +331,60 @@ func GenEngineScript(r *Rng, o EngineGenOpts, hist map[string]int) []string {
 		inspect()
 		add("close")
 	}
+	return out
+}
+
+// GenBackupCycle: records of one size fill two or three files; backup; one group is deleted; merge;
+// the adopting restart (rewritten files take the ids, and with uniform records the sizes, of the
+// originals); a second backup into the SAME directory; the copy is opened and inspected.
+func GenBackupCycle(r *Rng, o EngineGenOpts, hist map[string]int) []string {
+	var out []string
+	add := func(format string, a ...interface{}) { out = append(out, "E "+fmt.Sprintf(format, a...)) }
+	c := genCfg(r, o, hist)
+	c.fsize = r.Pick(200, 700)
+	vlen := r.Pick(10, 20, 33)
+	per := c.fsize / (encLen(3, vlen, 0) + 7)
+	if per < 2 {
+		per = 2
+	}
+	groups := 2 + r.Intn(2)
+	add("dir db")
+	add("open %s", c)
+	key := func(g, i int) string { return fmt.Sprintf("%02x%02x%02x", 0x6b, g, i) }
+	for g := 0; g < groups; g++ {
+		for i := 0; i < per; i++ {
+			add("put %s @%d:%d", key(g, i), vlen, r.Intn(99999))
+		}
+	}
+	add("files")
+	add("backup bk")
+	victim := r.Intn(groups)
+	for i := 0; i < per; i++ {
+		add("del %s", key(victim, i))
+	}
+	add("merge")
+	add("hintcheck")
+	add("dump")
+	add("close")
+	c = genCfg(r, o, hist)
+	c.fsize = r.Pick(200, 700)
+	add("open %s", c)
+	add("dump")
+	add("files")
+	if r.Chance(1, 2) {
+		add("put %s @%d:%d", key(0, 0), vlen, r.Intn(99999))
+	}
+	add("backup bk")
+	add("dump")
+	add("close")
+	add("dir bk")
+	add("open %s", genCfg(r, o, hist))
+	add("dump")
+	add("list")
+	add("files")
+	add("put 6b31 02")
+	add("close")
+	hist["backup_cycle"]++
 	return out
 }
 
@@ -465,6 +525,8 @@ func init() {
 				o.Backups = true
 			case "bigvals":
 				o.BigVals = true
+			case "backupcycle":
+				o.BackupCycle = true
 			case "mergeheavy":
 				o.MergeHeavy = true
 				o.Merges = true
@@ -475,7 +537,12 @@ func init() {
 		h := map[string]int{}
 		var lines []string
 		for i := 0; i < *n; i++ {
-			sc := GenEngineScript(r, o, h)
+			var sc []string
+			if o.BackupCycle && r.Chance(1, 4) {
+				sc = GenBackupCycle(r, o, h)
+			} else {
+				sc = GenEngineScript(r, o, h)
+			}
 			if *variants <= 1 {
 				lines = append(lines, fmt.Sprintf("S %d", i))
 				lines = append(lines, sc...)
